@@ -555,17 +555,36 @@ def run_G(pid, tier, seed):
         # reconfigure priorities
         if pid in ("C06", "C07") and rng.random() < 0.5 and sc["n"] >= 1:
             stats["cp_after_config"] += 1
-            tgt = rng.randrange(sc["n"])
             newp = rng.choice([0, 0, -7, 4, 9, 50])
-            d.config_from_dict({"nodes": {"n%d" % tgt: {"priority": newp}}}) if not any(
-                (s["tag"] == "n%d" % tgt) or (isinstance(s["tag"], tuple) and "n%d" % tgt in s["tag"]) for s in sc["specs"]) else None
+            all_tags = sorted({t for s_ in sc["specs"] if s_["tag"] is not None
+                               for t in ([s_["tag"]] if isinstance(s_["tag"], str) else s_["tag"])})
+            if all_tags and rng.random() < 0.5:
+                # through a TAG: every node carrying exactly that tag gets the new priority
+                key = rng.choice(all_tags)
+                tgts = [i for i, s_ in enumerate(sc["specs"]) if s_["tag"] == key or (isinstance(s_["tag"], tuple) and key in s_["tag"])]
+                stats["cp_after_config_by_tag"] = stats.get("cp_after_config_by_tag", 0) + 1
+            else:
+                tgt = rng.randrange(sc["n"])
+                key, tgts = "n%d" % tgt, [tgt]
+                if any((s["tag"] == key) or (isinstance(s["tag"], tuple) and key in s["tag"]) for s in sc["specs"]):
+                    key, tgts = None, []        # the id is also somebody's tag: the tag would win; skip
+            conf_ = {"nodes": {key: {"priority": newp}}} if key is not None else None
+            if conf_ is not None:
+                d.config_from_dict(conf_)
+                if rng.random() < 0.3:
+                    d.config_from_dict(conf_)     # the same dict object given again: still the same configuration
             prio2 = [d.exec_nodes[x].priority for x in ids_]
-            want2 = spec_cp(preds, prio2)
+            want_prio = list(prio)
+            for i in tgts:
+                want_prio[pos["n%d" % i]] = newp
+            if prio2 != want_prio:
+                bad("configuration-not-applied", sc, key=key, new_priority=newp, real=dict(zip(ids_, prio2)), want=dict(zip(ids_, want_prio)))
+            want2 = spec_cp(preds, want_prio)
             real2 = [d.graph_ids.compound_priority[x] for x in ids_]
             if real2 != want2:
                 bad("cp-table-wrong/after-config", sc, real=dict(zip(ids_, real2)), want=dict(zip(ids_, want2)),
-                    reconfigured=("n%d" % tgt, newp))
-            prio, want_cp = prio2, want2
+                    reconfigured=(key, newp))
+            prio, want_cp = want_prio, want2
             blocks.append(G.graph_block("cfg%s" % k, preds, prio, debug, ["cp"]))
             queries.append(("cfg%s" % k, [("cp", dict(real=real2, where="after-config"))], sc))
         # a DAG obtained by compose(): its table must obey the same definition (its node table has no recording order)
@@ -1141,7 +1160,7 @@ import slice_h as H  # noqa: E402
 KINDS_H = {
     "C03": ["call", "call", "exec", "exec", "setup", "setupsel", "fork", "xmk", "xrun"],
     "C11": ["call", "call", "exec", "setup", "setupsel", "fork", "xmk", "xrun", "xrun", "xsetup"],
-    "C15": ["call", "call", "call", "exec", "rerun", "rerun", "config", "compose", "setup", "xmk", "xrun", "xrun"],
+    "C15": ["call", "call", "call", "exec", "rerun", "rerun", "config", "compose", "setup", "xmk", "xrun", "xrun", "setupfail"],
     "C18": ["cache", "cache", "call", "setup"],
 }
 
@@ -1302,6 +1321,10 @@ def run_H(pid, tier, seed):
                     kind, sig = "counterexample", "setup-node-ran-again"
                 elif pid == "C03":
                     kind, sig = "counterexample", "entered-set-differs-from-selected-active-nodes"
+                elif pid == "C15":
+                    # which nodes an operation runs is a function of its selection, its arguments and the setup results
+                    # the instance holds (the model); anything else is state leaked from the history
+                    kind, sig = "counterexample", "nodes-run-by-an-operation-depend-on-the-history"
                 failures.append(Failure(kind, sig, scen, dict(op=op, real=ent, model=m_ent), slice_="H"))
                 continue
             if op["op"] in ("call", "exec", "rerun", "cache", "restart", "xrun") and outc[1] is not None:
